@@ -1781,7 +1781,7 @@ func (s *Server) loadClients(v []storage.Client) {
 func (s *Server) loadInflight(v []storage.Message) {
 	for _, msg := range v {
 		if client, ok := s.Clients.Get(msg.Client); ok {
-			client.State.Inflight.Set(msg.ToPacket())
+			client.State.Inflight.Set(s.restoredPacket(msg))
 		}
 	}
 }
@@ -1789,8 +1789,21 @@ func (s *Server) loadInflight(v []storage.Message) {
 // loadRetained restores retained messages from the datastore.
 func (s *Server) loadRetained(v []storage.Message) {
 	for _, msg := range v {
-		s.Topics.RetainMessage(msg.ToPacket())
+		s.Topics.RetainMessage(s.restoredPacket(msg))
 	}
+}
+
+// restoredPacket converts a stored message and gives it back the expiry time it had when it was
+// published (the store keeps the creation time and the publisher's interval, not the deadline).
+func (s *Server) restoredPacket(msg storage.Message) packets.Packet {
+	pk := msg.ToPacket()
+	if pk.Properties.MessageExpiryInterval > 0 {
+		pk.ProtocolVersion = 5 // only MQTT 5 publishers can set the interval; housekeeping tests the version
+	}
+	if expiry := minimum(s.Options.Capabilities.MaximumMessageExpiryInterval, int64(pk.Properties.MessageExpiryInterval)); expiry > 0 && pk.Created > 0 {
+		pk.Expiry = pk.Created + expiry
+	}
+	return pk
 }
 
 // clearExpiredClients deletes all clients which have been disconnected for longer
